@@ -497,6 +497,23 @@ func (act *activation) builtin(a *alt, ins ssa.Instruction, b *ssa.Builtin, args
 			t = T.Mk("append", args...)
 		}
 	case "copy":
+		// copy(local[lo:], src): the local array changes; record it in the cell
+		// so later readers (hash of the buffer, ...) see the copied bytes
+		if ci, ok := ins.(ssa.CallInstruction); ok && len(ci.Common().Args) == 2 {
+			if sl, ok := ci.Common().Args[0].(*ssa.Slice); ok && sl.High == nil && sl.Max == nil {
+				x := act.val(a, sl.X)
+				if _, _, ok := e.addrRoot(x); ok {
+					old := act.load(a, x, nil)
+					if T.Op(old) != "top#bigarray" {
+						lo := T.Mk("0")
+						if sl.Low != nil {
+							lo = act.val(a, sl.Low)
+						}
+						act.store(a, x, T.Mk("copied", old, lo, args[1]), ins)
+					}
+				}
+			}
+		}
 		a.impure = true
 		a.atoms = a.atoms.Add(T.MkSite("copy", site, args...))
 		t = T.MkSite("copy", site, args...)
